@@ -9,8 +9,9 @@ environments.
 * Values: opaque tensors `D` (everything the operators are uninterpreted on), plus the small concrete
   fragment the adapters compute with: 1-D vectors of elements `E` (scale, bias), 2-D matrices, integer
   lists (shapes / the DFT axis).
-* Operators: `Constant(value_int[s])`, `Reshape(v,[-1,1])`, `Expand(m,[1,k])`, `Reshape(m,[-1])` are
-  interpreted from the ONNX specification (row-major); every other application is
+* Operators: `Constant(value_int[s])`, `Reshape(v,[-1,1])`, `Expand(m,[1,k])`, `Reshape(m,[-1])`, `Shape` of a
+  vector, integer `Div`, `Concat` of integer lists are interpreted from the ONNX specification (row-major);
+  `Shape(x, start=1, end=2)` of an opaque tensor is `[chan x]` (law `shape`); every other application is
   `sem op version inputs` — an uninterpreted function indexed by (operator with attributes, opset version).
 * A graph is a list of single-output nodes over natural-number names, evaluated left to right.
 -/
@@ -33,6 +34,9 @@ def evalOp {D E} (sem : OpSem D E) (op : Op) (ver : Nat) (ins : List (Option (Va
   | .plain "Reshape", [some (.vec s), some (.ints [-1, 1])] => some (.mat (reshapeCol s))
   | .plain "Reshape", [some (.mat m), some (.ints [-1])] => some (.vec (flattenRows m))
   | .plain "Expand", [some (.mat m), some (.ints [1, k])] => some (.mat (expandRows k.toNat m))
+  | .plain "Shape", [some (.vec s)] => some (.ints [(s.length : Int)])
+  | .plain "Div", [some (.ints [a]), some (.ints [b])] => some (.ints [a / b])
+  | .plain "Concat", [some (.ints a), some (.ints b)] => some (.ints (a ++ b))
   | _, _ => sem op ver ins
 
 structure ENode where
@@ -79,6 +83,27 @@ def rewriteE (n : ENode) (v : Nat) (f : Nat) : Option (List ENode × Nat) :=
            { op := e2, ver := v + 1, ins := [some (f + 6), some (f + 2)], out := f + 7 },
            { op := r4, ver := v + 1, ins := [some (f + 7), some (f + 1)], out := f + 8 },
            { op := g, ver := v + 1, ins := [x, some (f + 5), some (f + 8)], out := n.out }], f + 9)
+  | .groupNorm _, .replaced [k1, k2, k3, sx, s1, d1, r1, c1, e1, r2, s2, d2, r3, c2, e2, r4, g] =>
+    let x := n.ins.getD 0 none
+    let s := n.ins.getD 1 none
+    let b := n.ins.getD 2 none
+    some ([{ op := k1, ver := v + 1, ins := [], out := f },                       -- [-1, 1]
+           { op := k2, ver := v + 1, ins := [], out := f + 1 },                   -- [-1]
+           { op := k3, ver := v + 1, ins := [], out := f + 2 },                   -- [1]
+           { op := sx, ver := v + 1, ins := [x], out := f + 3 },                  -- Shape(x, 1, 2) = [C]
+           { op := s1, ver := v + 1, ins := [s], out := f + 4 },                  -- Shape(scale)
+           { op := d1, ver := v + 1, ins := [some (f + 3), some (f + 4)], out := f + 5 },   -- C / len
+           { op := r1, ver := v + 1, ins := [s, some f], out := f + 6 },
+           { op := c1, ver := v + 1, ins := [some (f + 2), some (f + 5)], out := f + 7 },   -- [1, C/len]
+           { op := e1, ver := v + 1, ins := [some (f + 6), some (f + 7)], out := f + 8 },
+           { op := r2, ver := v + 1, ins := [some (f + 8), some (f + 1)], out := f + 9 },
+           { op := s2, ver := v + 1, ins := [b], out := f + 10 },
+           { op := d2, ver := v + 1, ins := [some (f + 3), some (f + 10)], out := f + 11 },
+           { op := r3, ver := v + 1, ins := [b, some f], out := f + 12 },
+           { op := c2, ver := v + 1, ins := [some (f + 2), some (f + 11)], out := f + 13 },
+           { op := e2, ver := v + 1, ins := [some (f + 12), some (f + 13)], out := f + 14 },
+           { op := r4, ver := v + 1, ins := [some (f + 14), some (f + 1)], out := f + 15 },
+           { op := g, ver := v + 1, ins := [x, some (f + 9), some (f + 15)], out := n.out }], f + 16)
   | _, _ => none
 
 /-- Thread the fresh-name counter through a list. -/
@@ -109,10 +134,12 @@ def convGraphE (s t : Nat) (ns : List ENode) (f : Nat) : List ENode × Nat :=
 /-! ## Hypotheses about the run time (A-op), stated on `sem` -/
 
 /-- The adapter laws as statements about the operator semantics. -/
-structure Laws {D E} (sem : OpSem D E) : Prop where
+structure Laws {D E} (sem : OpSem D E) (chan : D → Nat) : Prop where
   /-- an operator form that reads the same at two opsets behaves the same at both (a form valid at neither
   fails at both); for operators without adapters this is the converter's own assumption -/
   sameMeaning : ∀ (op : Op) (v v' : Nat) ins, op.meaning v = op.meaning v' → sem op v ins = sem op v' ins
+  /-- `Shape(x, start=1, end=2)` of an opaque tensor is its channel count -/
+  shape : ∀ (v : Nat) (x : D), sem (.plain "Shape") v [some (.data x)] = some (.ints [(chan x : Int)])
   /-- GridSample is determined by (interpolation, align_corners, padding_mode): 16-vocabulary at 19 = 20-vocabulary at 20 -/
   gridSample : ∀ (m a p m' a' p') ins,
     (Op.gridSample m a p).meaning 19 = (Op.gridSample m' a' p').meaning 20 → ((Op.gridSample m a p).meaning 19).isSome →
@@ -132,12 +159,15 @@ structure Laws {D E} (sem : OpSem D E) : Prop where
       = sem (.groupNorm n) 20 [x, some (.vec s), some (.vec b)]
 
 /-- The facts a GroupNormalization node carries are true of the values it is evaluated on (A-shape). -/
-def Truthful {D E} (env : Env D E) (n : ENode) : Prop :=
+def Truthful {D E} (chan : D → Nat) (env : Env D E) (n : ENode) : Prop :=
   match n.op with
   | .groupNorm gn =>
     n.ins.length = 3 ∧ gn.c / (gn.groups.getD 1) * (gn.groups.getD 1) = gn.c ∧
-    ∃ s b : List E, (n.ins.getD 1 none).bind env = some (.vec s) ∧ (n.ins.getD 2 none).bind env = some (.vec b) ∧
-      s.length = gn.sLen ∧ b.length = gn.bLen
+    (∃ s b : List E, (n.ins.getD 1 none).bind env = some (.vec s) ∧ (n.ins.getD 2 none).bind env = some (.vec b) ∧
+      s.length = gn.sLen ∧ b.length = gn.bLen) ∧
+    -- when the adapter has to look at the run-time shape of `x`: `x` is a tensor with `gn.c` channels
+    ((gn.xVis = .known ∧ gn.sVis = .known ∧ gn.bVis = .known) ∨
+      ∃ dx : D, (n.ins.getD 0 none).bind env = some (.data dx) ∧ chan dx = gn.c)
   | .dft .. => n.ins.length ≤ 2
   | _ => True
 
